@@ -177,6 +177,46 @@ func condOfBlock(b *ssa.BasicBlock) (ssa.Value, bool) {
 	return v, neg
 }
 
+// fsNormalised: v = TrimPrefix(ToSlash(Clean(x)), "/"), directly or as the
+// single result of a module-internal helper applied to x (followed to the
+// given depth) whose every return has that shape over its parameter.
+func fsNormalised(v ssa.Value, depth int) bool {
+	tp := asCall(v)
+	if tp == nil {
+		return false
+	}
+	if staticCalleeIs(&tp.Call, "strings", "TrimPrefix") && isConstString(tp.Call.Args[1], "/") {
+		ts := asCall(tp.Call.Args[0])
+		if ts == nil || !staticCalleeIs(&ts.Call, "path/filepath", "ToSlash") {
+			return false
+		}
+		cl := asCall(ts.Call.Args[0])
+		return cl != nil && staticCalleeIs(&cl.Call, "path/filepath", "Clean")
+	}
+	f := tp.Call.StaticCallee()
+	if depth <= 0 || f == nil || len(f.Blocks) == 0 || f.Pkg == nil || !strings.HasPrefix(f.Pkg.Pkg.Path(), modPath) || len(f.Params) != 1 {
+		return false
+	}
+	nret := 0
+	for _, b := range f.Blocks {
+		for _, in := range b.Instrs {
+			r, ok := in.(*ssa.Return)
+			if !ok {
+				continue
+			}
+			nret++
+			if len(r.Results) != 1 || !fsNormalised(r.Results[0], depth-1) {
+				return false
+			}
+			// the cleaned operand must be the helper's parameter
+			if !derivesFrom(r.Results[0], func(x ssa.Value) bool { return x == ssa.Value(f.Params[0]) }, 6, map[ssa.Value]bool{}) {
+				return false
+			}
+		}
+	}
+	return nret > 0
+}
+
 func isConstString(v ssa.Value, want string) bool {
 	k, ok := v.(*ssa.Const)
 	return ok && k.Value != nil && k.Value.Kind() == constant.String && constant.StringVal(k.Value) == want
@@ -487,16 +527,7 @@ func init() {
 						} else {
 							add("fs operand", Proved, "reads go through lib.FS", call.Pos())
 						}
-						tp := asCall(call.Call.Args[1])
-						ok := tp != nil && staticCalleeIs(&tp.Call, "strings", "TrimPrefix") && isConstString(tp.Call.Args[1], "/")
-						if ok {
-							ts := asCall(tp.Call.Args[0])
-							ok = ts != nil && staticCalleeIs(&ts.Call, "path/filepath", "ToSlash")
-							if ok {
-								cl := asCall(ts.Call.Args[0])
-								ok = cl != nil && staticCalleeIs(&cl.Call, "path/filepath", "Clean")
-							}
-						}
+						ok := fsNormalised(call.Call.Args[1], 2)
 						if ok {
 							add("name normalised", Proved, "name = TrimPrefix(ToSlash(Clean(..)), \"/\")", call.Pos())
 						} else {
@@ -507,6 +538,108 @@ func init() {
 			}
 			if nreads != 1 {
 				add("fs read", Violated, fmt.Sprintf("expected exactly one fs.ReadFile, found %d", nreads), token.NoPos)
+			}
+			return obs
+		}})
+
+	register(&Rule{ID: "CONFINE.true-location", Floor: 4,
+		Doc: "each SourceLibrary.LoadSource returns, as the loaded file's location (2nd result), the very path value it passed to the file read, and that path is joined with the directory of the loading file's location when one is given: a file loaded from a subdirectory resolves its own relative loads against that subdirectory",
+		Run: func(c *Ctx) []Obligation {
+			var obs []Obligation
+			for _, name := range []string{"lisp.(*RelativeFileSystemLibrary).LoadSource", "lisp.(*FSLibrary).LoadSource"} {
+				fnT, fd, pkg := c.LookupFunc(name)
+				if fnT == nil {
+					obs = append(obs, anchorMissing("CONFINE.true-location", name))
+					continue
+				}
+				u := FuncUnit{fnT, fd, pkg}
+				fn := c.ssaFunc(fnT)
+				add := func(construct, verdict, detail string, pos token.Pos) {
+					p := fd.Pos()
+					if pos.IsValid() {
+						p = pos
+					}
+					obs = append(obs, Obligation{Rule: "CONFINE.true-location", Func: u.Name(), Construct: construct, Pos: c.Pos(p), Verdict: verdict, Detail: detail, Nontrivial: true})
+				}
+				var readPath ssa.Value
+				var readCall *ssa.Call
+				nreads := 0
+				for _, b := range fn.Blocks {
+					for _, in := range b.Instrs {
+						call, ok := in.(*ssa.Call)
+						if !ok {
+							continue
+						}
+						if staticCalleeIs(&call.Call, "os", "ReadFile") {
+							readPath, readCall = call.Call.Args[0], call
+							nreads++
+						}
+						if staticCalleeIs(&call.Call, "io/fs", "ReadFile") {
+							readPath, readCall = call.Call.Args[1], call
+							nreads++
+						}
+					}
+				}
+				if nreads != 1 {
+					add("single read", Violated, fmt.Sprintf("expected exactly one file read, found %d", nreads), token.NoPos)
+					continue
+				}
+				// every return that hands back data (3rd result derived from the read) reports readPath as location
+				nret := 0
+				for _, b := range fn.Blocks {
+					for _, in := range b.Instrs {
+						r, ok := in.(*ssa.Return)
+						if !ok || len(r.Results) != 4 {
+							continue
+						}
+						if !derivesFrom(r.Results[2], func(x ssa.Value) bool { return x == ssa.Value(readCall) }, 4, map[ssa.Value]bool{}) {
+							continue // error return without data
+						}
+						nret++
+						if r.Results[1] == readPath {
+							add(fmt.Sprintf("location returned#%d", nret), Proved, "the reported location is the value passed to the read", r.Pos())
+						} else {
+							add(fmt.Sprintf("location returned#%d", nret), Violated, "the location reported for the loaded file is not the path that was read: nested relative loads from that file resolve against the wrong directory", r.Pos())
+						}
+					}
+				}
+				if nret == 0 {
+					add("location returned", Undecided, "no return carrying the read data found", token.NoPos)
+				}
+				// the read path derives from Join(Dir(ctx.Location()), loc)
+				isJoin := func(x ssa.Value) bool {
+					j := asCall(x)
+					if j == nil || !staticCalleeIs(&j.Call, "path/filepath", "Join") {
+						return false
+					}
+					hasDir, hasLoc := false, false
+					check := func(a ssa.Value) {
+						if derivesFrom(a, func(y ssa.Value) bool {
+							d := asCall(y)
+							if d == nil || !staticCalleeIs(&d.Call, "path/filepath", "Dir") {
+								return false
+							}
+							return derivesFrom(d.Call.Args[0], func(z ssa.Value) bool {
+								zc := asCall(z)
+								return zc != nil && zc.Call.IsInvoke() && zc.Call.Method.Name() == "Location"
+							}, 3, map[ssa.Value]bool{})
+						}, 4, map[ssa.Value]bool{}) {
+							hasDir = true
+						}
+						if len(fn.Params) >= 3 && derivesFrom(a, func(y ssa.Value) bool { return y == ssa.Value(fn.Params[2]) }, 3, map[ssa.Value]bool{}) {
+							hasLoc = true
+						}
+					}
+					for _, a := range j.Call.Args {
+						check(a)
+					}
+					return hasDir && hasLoc
+				}
+				if derivesFrom(readPath, isJoin, 12, map[ssa.Value]bool{}) {
+					add("joined with loader's directory", Proved, "the read path derives from filepath.Join(filepath.Dir(ctx.Location()), loc)", readCall.Pos())
+				} else {
+					add("joined with loader's directory", Violated, "the read path does not derive from Join(Dir(ctx.Location()), loc): relative locations no longer resolve against the loading file's directory", readCall.Pos())
+				}
 			}
 			return obs
 		}})
